@@ -237,4 +237,73 @@ example : Pre exFrames 0 3 ∧ Post exFrames 0 3 := by
 example : runCalls exFrames 0 {} [5, 2, 7, 1]
     = [([1, 2, 3, 11, 12], 0), ([13, 21], 0), ([22, 23, 0, 0, 0, 0, 0], 0), ([], -1)] := by decide
 
+/-! ## Discharging the `Post` hypothesis
+
+`Post frames loop n` (the end is absorbing) is what C16 provides: the loop
+counter never decreases between position-control calls (`C16_loop_monotone_run`)
+and `-XMP_END` persists (`xmp_play_frame` keeps returning it until a position
+call).  The two lemmas below derive `Post` from exactly those two facts about a
+frame stream, so `C12_concat` applies to every stream the sequencer can produce. -/
+
+/-- loop count carried by a frame (`fin` frames carry none) -/
+def Frame.lc? : Frame → Option Nat
+  | .data _ lc => some lc
+  | .fin => none
+
+/-- the stream facts C16 guarantees: an ended stream stays ended, and loop
+counts of consecutive data frames never decrease -/
+structure SeqStream (frames : Nat → Frame) : Prop where
+  fin_absorbing : ∀ i, frames i = .fin → frames (i + 1) = .fin
+  lc_monotone : ∀ i b b' l l', frames i = .data b l → frames (i + 1) = .data b' l' → l ≤ l'
+
+theorem terminating_succ (frames : Nat → Frame) (loop : Int) (h : SeqStream frames) (i : Nat)
+    (ht : terminating loop (frames i) = true) : terminating loop (frames (i + 1)) = true := by
+  cases hi : frames i with
+  | fin =>
+    rw [h.fin_absorbing i hi]; rfl
+  | data b l =>
+    cases hj : frames (i + 1) with
+    | fin => rfl
+    | data b' l' =>
+      have hm := h.lc_monotone i b b' l l' hi hj
+      rw [hi] at ht
+      simp only [terminating, decide_eq_true_eq] at ht ⊢
+      omega
+
+/-- **C12_post_of_seqstream**: for a sequencer stream, once a frame terminates
+every later frame terminates. -/
+theorem C12_post_of_seqstream (frames : Nat → Frame) (loop : Int) (h : SeqStream frames) (n : Nat)
+    (hn : terminating loop (frames n) = true) : Post frames loop n := by
+  intro i hi
+  obtain ⟨k, rfl⟩ : ∃ k, i = n + k := ⟨i - n, by omega⟩
+  clear hi
+  induction k with
+  | zero => simpa using hn
+  | succ k ih => exact terminating_succ frames loop h (n + k) ih
+
+/-- `C12_concat` for sequencer streams: only non-emptiness of the frames before
+the first terminating one remains as a hypothesis (C16: a tick is at least 8
+sample frames). -/
+theorem C12_concat_seqstream (frames : Nat → Frame) (loop : Int) (n : Nat)
+    (h : SeqStream frames) (hpre : Pre frames loop n) (hn : terminating loop (frames n) = true)
+    (sizes : List Int) :
+    runCalls frames loop {} sizes = specRun (stream frames n) 0 sizes :=
+  C12_concat frames loop n hpre (C12_post_of_seqstream frames loop h n hn) sizes
+
+example : SeqStream exFrames := by
+  constructor
+  · intro i hi
+    have h3 : ¬ i < 3 := by
+      intro h; simp [exFrames, h] at hi
+    have : ¬ i + 1 < 3 := by omega
+    simp [exFrames, this]
+  · intro i b b' l l' h1 h2
+    by_cases hi : i < 3
+    · simp only [exFrames, hi, if_true] at h1
+      by_cases hj : i + 1 < 3
+      · simp only [exFrames, hj, if_true] at h2
+        cases h1; cases h2; exact Nat.le_refl _
+      · simp [exFrames, hj] at h2
+    · simp [exFrames, hi] at h1
+
 end Xmp.PlayBuffer
